@@ -11,6 +11,7 @@
 // Tolerances: 1e-8 dB for the static curve (DESIGN C20), 1e-9 dB for ceiling / monotonicity / continuity, 1e-12 on the
 // linear gain range (rounding of T + (x - T)/R can exceed x by one ulp for R = 1), a-priori k*eps bounds for the recurrences.
 #include "kit/num.h"
+#include "kit/prelude.h"
 #include <dsplib.h>
 
 using namespace vk;
